@@ -1558,9 +1558,13 @@ class Container:
 
         # the current concentration itself (as reported: rounded to the internal precision; as computed: to the last
         # digits of a float and of the stored amounts) needs no solvent
-        if bottom and abs(new_concentration - current_concentration) <= (10 ** -config.internal_precision +
-                                                                          1e-9 * current_concentration):
-            return deepcopy(self)
+        stored_decimals = 10 ** -config.internal_precision / self.contents[solute]  # (relative: what one stored digit is)
+        if bottom and abs(new_concentration - current_concentration) <= (
+                10 ** -config.internal_precision + (1e-9 + stored_decimals) * current_concentration):
+            result = deepcopy(self)
+            if name:
+                result.name = name
+            return result
 
         if new_concentration > current_concentration:
             raise ValueError("Desired concentration is higher than current concentration.")
